@@ -10,6 +10,7 @@
      ssa        Proofs.SsaNoPanic.into_ssa_never_panics_tree          (C01_into_ssa_never_panics)
                 Proofs.SsaFuel.into_ssa_never_out_of_fuel             (C01_into_ssa_fuel_suffices)
                 with Proofs.MirrorsDom.lifted_children_facts          (bridge: C15_idom_exact, C15_idom_unique, C12_dom_implies_le)
+     clean      Proofs.SsaClean.into_ssa_keeps_clean                  (bridge: no value claim before / after SSA)
      propagate  Proofs.PropagateTotal.propagate_completes             (C20_propagate_completes)
 
    What remains a hypothesis is collected in [program_ok] below. *)
@@ -18,7 +19,7 @@ Require Import Model.Ast Model.Desugar Spec.ExpandSpec Proofs.DesugarTotal.
 Require Model.Base Model.PipelineMirrors Model.Lift Model.Dom Model.Ir Model.Ssa Model.Propagate Model.Justify
         Model.Clean Model.Includes Spec.DomSpec.
 Require Proofs.LiftTotalFlat Proofs.MirrorsShape Proofs.MirrorsAdapter Proofs.MirrorsDom Proofs.SsaNoPanic
-        Proofs.SsaFuel Proofs.PropagateTotal Proofs.IncludesNoPanic.
+        Proofs.SsaFuel Proofs.SsaClean Proofs.PropagateTotal Proofs.IncludesNoPanic.
 Import ListNotations.
 Local Open Scope list_scope.
 
@@ -49,21 +50,25 @@ Section Chain.
   (* ---- the hypotheses, all decidable ---- *)
 
   (* about the (unmirrored) IR lifting of the leaves of a body: no variable carries a
-     version yet, and a local that is assigned is among the declarations *)
+     version yet, no node carries a value claim yet (literals non-negative), and a
+     local that is assigned is among the declarations *)
   Definition lifted_ok (h : PM.definition_head) (body : statement) : bool :=
     match PM.all_some (map ir_node (PM.table body)) with
     | None => true
-    | Some tbl => forallb MirrorsAdapter.node_unv tbl && forallb (MirrorsAdapter.node_declared h) tbl
+    | Some tbl => forallb MirrorsAdapter.node_unv tbl && forallb MirrorsAdapter.node_clean tbl &&
+                  forallb (MirrorsAdapter.node_declared h) tbl
     end.
 
-  (* about the graph the SSA construction returns, when it returns one: no value
-     claim yet and one defining assignment per versioned local (what C14_unique_defs
-     states for graphs its validator accepts) -- the two hypotheses of C20_propagate_completes *)
+  (* about the graph the SSA construction returns, when it returns one: one defining
+     assignment per versioned local -- the second hypothesis of C20_propagate_completes
+     (C14_unique_defs states it for graphs C14's validator accepts; it is not proved
+     for the construction mirror).  The first one, no value claim yet, is proved:
+     Proofs.SsaClean.into_ssa_keeps_clean *)
   Definition ssa_output_ok (h : PM.definition_head) (body : statement) : bool :=
     match cfg_of_body h body with
     | Base.Ok (Some c) =>
         match ssa_of c with
-        | Base.Ok (Ssa.SOk c1) => Clean.clean_cfg c1 && Justify.ldefs_unique (Justify.all_stmts (Ir.c_blocks c1))
+        | Base.Ok (Ssa.SOk c1) => Justify.ldefs_unique (Justify.all_stmts (Ir.c_blocks c1))
         | _ => true
         end
     | _ => true
@@ -103,7 +108,7 @@ Section Chain.
     unfold PM.analyse_body. unfold lifted_ok in Hl. unfold ssa_output_ok in Hs.
     destruct (PM.all_some (map ir_node (PM.table body))) as [tbl|] eqn:Et.
     2:{ unfold PM.cfg_of_body. rewrite Et. exact I. }
-    apply andb_prop in Hl. destruct Hl as [Hunv Hdecl].
+    apply andb_prop in Hl. destruct Hl as [Hl Hdecl]. apply andb_prop in Hl. destruct Hl as [Hunv Hcl].
     destruct (LiftTotalFlat.lift_never_panics_desugared _ Hshape) as (g & Hg).
     destruct (MirrorsAdapter.ir_of_lift_total ir_stmt ir_cond body tbl Et g Hg h) as (c & Hc).
     assert (E1 : cfg_of_body h body = Base.Ok (Some c)).
@@ -124,8 +129,10 @@ Section Chain.
     pose proof (MirrorsAdapter.ir_written_declared tbl g h c Hc Hdecl) as Hd.
     pose proof (SsaNoPanic.into_ssa_never_panics_tree frontier children c Hu Hn K1 K2 K3) as NP.
     pose proof (SsaFuel.into_ssa_never_out_of_fuel frontier children c Hu Hd Hn K1) as NF.
-    destruct (Ssa.into_ssa frontier children c) as [c1| | |]; [|exact I|contradiction|contradiction].
-    apply andb_prop in Hs. destruct Hs as [Hclean Huniq].
+    destruct (Ssa.into_ssa frontier children c) as [c1| | |] eqn:Essa; [|exact I|contradiction|contradiction].
+    pose proof (SsaClean.into_ssa_keeps_clean frontier children c c1
+                  (MirrorsAdapter.ir_clean tbl g h c Hc Hcl) Essa) as Hclean.
+    rename Hs into Huniq.
     destruct (PropagateTotal.propagate_completes p Hp1 Hp2 Hp3 kv kd c1 Hclean Huniq) as (c2 & ->). exact I.
   Qed.
 
